@@ -27,7 +27,7 @@ class ToyParser(Parser):
     _no_address_mnemonics = ["NOT", "INC", "DEC", "ZRO", "NOP"]
 
     _pattern_hex_value = pp.Combine("0x" + pp.Word(pp.hexnums))
-    _pattern_dec_value = pp.Word(pp.nums)
+    _pattern_dec_value = pp.Word(pp.nums, max=4300)  # longer literals cannot be converted by int()
 
     _pattern_label = pp.Word(pp.alphas + "_", pp.alphanums + "_")
 
